@@ -395,3 +395,602 @@ Proof.
   intros Hno. rewrite <- (sel_app_l L2 L1 c Hno).
   split; apply sel_perm; apply Permutation_app_comm.
 Qed.
+
+(* ====================================================================== *)
+(* C. select_name and dominate both compute [sel]                            *)
+(* ====================================================================== *)
+
+Definition pick1 (top ttop : list cand) : option cand :=
+  match top with [c] => Some c | _ => match ttop with [t] => Some t | _ => None end end.
+Definition pick2 (top ttop : list cand) : option cand :=
+  match ttop with
+  | [t] => Some t
+  | _ :: _ :: _ => None
+  | [] => match top with [c] => Some c | _ => None end
+  end.
+
+Lemma pick12 top : pick1 top (filter c_tagged top) = pick2 top (filter c_tagged top).
+Proof.
+  destruct top as [|a [|b r]]; [reflexivity| |].
+  - cbn [filter]. destruct (c_tagged a); reflexivity.
+  - unfold pick1, pick2. destruct (filter c_tagged (a :: b :: r)) as [|t [|t' r']]; reflexivity.
+Qed.
+
+Lemma top_eq L n d :
+  filter (fun c => Nat.eqb (depth_of c) d) (filter (fun c => bytes_eqb (c_name c) n) L) = filter (pq n d false) L.
+Proof.
+  rewrite filter_filter'. apply filter_ext. intros x. unfold pq. cbn [implb]. rewrite andb_true_r. reflexivity.
+Qed.
+Lemma ttop_eq L n d : filter c_tagged (filter (pq n d false) L) = filter (pq n d true) L.
+Proof.
+  rewrite filter_filter'. apply filter_ext. intros x. unfold pq. cbn [implb]. rewrite andb_true_r. reflexivity.
+Qed.
+
+Lemma pick_spec L n d :
+  (forall y, In y L -> c_name y = n -> (d <= depth_of y)%nat) ->
+  forall c, pick1 (filter (pq n d false) L) (filter (pq n d true) L) = Some c <->
+            (sel L c /\ c_name c = n /\ depth_of c = d).
+Proof.
+  intros Hmin c. split.
+  - unfold pick1. intros H.
+    assert (Hcase : (filter (pq n d false) L = [c]) \/ (filter (pq n d true) L = [c])).
+    { destruct (filter (pq n d false) L) as [|a [|b r]];
+        [| inversion H; left; reflexivity |];
+        (destruct (filter (pq n d true) L) as [|t [|t' r']]; try discriminate; inversion H; right; reflexivity). }
+    destruct Hcase as [Ht|Ht].
+    + assert (Hc : In c (filter (pq n d false) L)) by (rewrite Ht; left; reflexivity).
+      apply filter_In in Hc. destruct Hc as [Hin Hp]. apply pq_true in Hp. destruct Hp as (Hn & Hd & _).
+      split; [|auto]. split; [exact Hin|]. split.
+      * intros y Hy Hny. rewrite Hd. apply Hmin; [exact Hy|congruence].
+      * left. unfold cnt. rewrite Hn, Hd, Ht. reflexivity.
+    + assert (Hc : In c (filter (pq n d true) L)) by (rewrite Ht; left; reflexivity).
+      apply filter_In in Hc. destruct Hc as [Hin Hp]. apply pq_true in Hp. destruct Hp as (Hn & Hd & Htg).
+      split; [|auto]. split; [exact Hin|]. split.
+      * intros y Hy Hny. rewrite Hd. apply Hmin; [exact Hy|congruence].
+      * right. split; [auto|]. unfold cnt. rewrite Hn, Hd, Ht. reflexivity.
+  - intros ((Hin & _ & Hc) & Hn & Hd). rewrite Hn, Hd in Hc.
+    assert (Hct : In c (filter (pq n d false) L)).
+    { apply filter_In. split; [exact Hin|]. apply pq_true. repeat split; auto. discriminate. }
+    destruct Hc as [Hc|[Htg Hc]].
+    + apply length_one in Hc. destruct Hc as [x Hx]. rewrite Hx in Hct |- *.
+      destruct Hct as [->|[]]. reflexivity.
+    + assert (Hctt : In c (filter (pq n d true) L)).
+      { apply filter_In. split; [exact Hin|]. apply pq_true. repeat split; auto. }
+      apply length_one in Hc. destruct Hc as [x Hx]. rewrite Hx in Hctt |- *.
+      destruct Hctt as [->|[]]. unfold pick1.
+      destruct (filter (pq n d false) L) as [|a [|b r]]; [reflexivity| |reflexivity].
+      destruct Hct as [->|[]]. reflexivity.
+Qed.
+
+Lemma fold_min_spec d0 l :
+  let d := fold_right Nat.min d0 l in
+  (forall x, In x l -> (d <= x)%nat) /\ (d = d0 \/ In d l).
+Proof.
+  induction l as [|x r [IH1 IH2]]; cbn [fold_right].
+  - split; [intros ? []|left; reflexivity].
+  - split.
+    + intros y [->|Hy]; [apply Nat.le_min_l|]. specialize (IH1 y Hy). lia.
+    + destruct (Nat.min_spec x (fold_right Nat.min d0 r)) as [[_ ->]|[_ ->]]; [right; left; reflexivity|].
+      destruct IH2 as [E|H]; [left; exact E|right; right; exact H].
+Qed.
+
+Theorem select_name_spec L n c : select_name L n = Some c <-> (sel L c /\ c_name c = n).
+Proof.
+  unfold select_name. cbv zeta. rewrite top_eq, ttop_eq.
+  set (same := filter (fun c => bytes_eqb (c_name c) n) L).
+  set (d := fold_right Nat.min (match same with c :: _ => depth_of c | [] => O end) (map depth_of same)).
+  change (pick1 (filter (pq n d false) L) (filter (pq n d true) L) = Some c <-> sel L c /\ c_name c = n).
+  assert (Hsame : forall y, In y same <-> In y L /\ c_name y = n).
+  { intros y. unfold same. rewrite filter_In, ag_bytes_eqb_eq. reflexivity. }
+  destruct (fold_min_spec (match same with c :: _ => depth_of c | [] => O end) (map depth_of same)) as [Hle Hat].
+  fold d in Hle, Hat.
+  assert (Hmin : forall y, In y L -> c_name y = n -> (d <= depth_of y)%nat).
+  { intros y Hy Hn. apply Hle. apply in_map. apply Hsame. auto. }
+  rewrite (pick_spec L n d Hmin c).
+  split; [intros (H & Hn & _); auto|]. intros [H Hn]. split; [exact H|]. split; [exact Hn|].
+  assert (Hcs : In c same) by (apply Hsame; split; [apply H|exact Hn]).
+  assert (Hat' : exists y, In y same /\ depth_of y = d).
+  { destruct Hat as [E|Hi].
+    - destruct same as [|c0 r]; [contradiction|]. exists c0. split; [left; reflexivity|auto].
+    - apply in_map_iff in Hi. destruct Hi as (y & E & Hy). exists y. auto. }
+  destruct Hat' as (y & Hy & Hd). apply Hsame in Hy. destruct Hy as [HyL Hyn].
+  destruct H as (_ & Hm & _). specialize (Hm y HyL (eq_trans Hyn (eq_sym Hn))).
+  specialize (Hmin c (proj1 (proj1 (Hsame c) Hcs)) Hn). lia.
+Qed.
+
+(* --- dedup_names, selected --- *)
+Lemma existsb_bytes_In x l : existsb (bytes_eqb x) l = true <-> In x l.
+Proof.
+  rewrite existsb_exists. split.
+  - intros (y & Hy & E). apply ag_bytes_eqb_eq in E. subst. exact Hy.
+  - intros H. exists x. split; [exact H|apply ag_bytes_eqb_refl].
+Qed.
+
+Lemma dedup_names_In x l : In x (dedup_names l) <-> In x l.
+Proof.
+  induction l as [|y r IH]; [reflexivity|]. cbn [dedup_names].
+  destruct (existsb (bytes_eqb y) r) eqn:E.
+  - rewrite IH. apply existsb_bytes_In in E. split; [right; assumption|]. intros [->|H]; assumption.
+  - cbn [In]. rewrite IH. reflexivity.
+Qed.
+
+Lemma dedup_names_NoDup l : NoDup (dedup_names l).
+Proof.
+  induction l as [|y r IH]; [constructor|]. cbn [dedup_names].
+  destruct (existsb (bytes_eqb y) r) eqn:E; [exact IH|].
+  constructor; [|exact IH]. rewrite dedup_names_In. intros H. apply existsb_bytes_In in H. congruence.
+Qed.
+
+Definition select_all (all : list cand) : list cand :=
+  flat_map (fun n => match select_name all n with Some c => [c] | None => [] end) (dedup_names (map c_name all)).
+
+Lemma selected_eq SE id : selected SE id = select_all (unfold (S (length SE)) SE id []).
+Proof. reflexivity. Qed.
+
+Theorem select_all_spec all c : In c (select_all all) <-> sel all c.
+Proof.
+  unfold select_all. rewrite in_flat_map. split.
+  - intros (n & _ & H). destruct (select_name all n) as [c'|] eqn:E; [|contradiction].
+    destruct H as [->|[]]. apply select_name_spec in E. apply E.
+  - intros H. exists (c_name c). split.
+    + apply dedup_names_In. apply in_map. apply H.
+    + assert (E : select_name all (c_name c) = Some c) by (apply select_name_spec; auto).
+      rewrite E. left. reflexivity.
+Qed.
+
+Lemma select_all_names_NoDup all : NoDup (map c_name (select_all all)).
+Proof.
+  unfold select_all.
+  assert (G : forall ns, NoDup ns ->
+    NoDup (map c_name (flat_map (fun n => match select_name all n with Some c => [c] | None => [] end) ns)) /\
+    (forall m, In m (map c_name (flat_map (fun n => match select_name all n with Some c => [c] | None => [] end) ns)) -> In m ns)).
+  { induction 1 as [|n ns Hn Hnd [IH1 IH2]]; cbn [flat_map map]; [split; [constructor|intros ? []]|].
+    destruct (select_name all n) as [c|] eqn:E.
+    - apply select_name_spec in E. destruct E as [_ E]. cbn [app map]. split.
+      + constructor; [|exact IH1]. rewrite E. intros H. apply Hn. apply IH2. exact H.
+      + intros m [<-|H]; [left; auto|right; apply IH2; exact H].
+    - cbn [app]. split; [exact IH1|]. intros m H. right. apply IH2. exact H. }
+  apply G. apply dedup_names_NoDup.
+Qed.
+
+(* --- dominate on a by_name-sorted list --- *)
+Definition le_bn (x y : cand) : Prop := by_name_ltb y x = false.
+Definition name_lt (x y : cand) : Prop := bytes_ltb (c_name x) (c_name y) = true.
+
+Lemma le_bn_name x y : le_bn x y -> bytes_ltb (c_name y) (c_name x) = false.
+Proof.
+  unfold le_bn, by_name_ltb. destruct (bytes_eqb (c_name y) (c_name x)) eqn:E; cbn [negb]; [|auto].
+  apply ag_bytes_eqb_eq in E. rewrite E. intros _. apply ag_bytes_ltb_irrefl.
+Qed.
+
+Lemma le_bn_depth x y : le_bn x y -> c_name x = c_name y -> (depth_of x <= depth_of y)%nat.
+Proof.
+  unfold le_bn, by_name_ltb, depth_of. intros H E. rewrite E, ag_bytes_eqb_refl in H. cbn [negb] in H.
+  destruct (Nat.eqb_spec (length (c_route y)) (length (c_route x))) as [E2|E2]; cbn [negb] in H; [lia|].
+  apply Nat.ltb_ge in H. exact H.
+Qed.
+
+Lemma StronglySorted_app_inv {X} (R : X -> X -> Prop) a b :
+  StronglySorted R (a ++ b) ->
+  StronglySorted R a /\ StronglySorted R b /\ (forall x y, In x a -> In y b -> R x y).
+Proof.
+  induction a as [|x a IH]; cbn [app]; intros H.
+  - split; [constructor|]. split; [exact H|]. intros ? ? [].
+  - inversion H as [|? ? Hs Hall]; subst. destruct (IH Hs) as (Ha & Hb & Hab).
+    rewrite Forall_forall in Hall. split; [|split; [exact Hb|]].
+    + constructor; [exact Ha|]. rewrite Forall_forall. intros y Hy. apply Hall. apply in_or_app. left. exact Hy.
+    + intros x' y [->|Hx] Hy; [apply Hall; apply in_or_app; right; exact Hy|auto].
+Qed.
+
+Lemma take_run_spec n l : forall a b, take_run n l = (a, b) ->
+  l = a ++ b /\ (forall y, In y a -> c_name y = n) /\ match b with [] => True | z :: _ => c_name z <> n end.
+Proof.
+  induction l as [|c r IH]; cbn [take_run]; intros a b H.
+  - inversion H; subst. split; [reflexivity|]. split; [intros ? []|exact I].
+  - destruct (bytes_eqb (c_name c) n) eqn:E.
+    + destruct (take_run n r) as [a' b'] eqn:Et. inversion H; subst.
+      destruct (IH _ _ eq_refl) as (-> & Ha & Hb). apply ag_bytes_eqb_eq in E.
+      split; [reflexivity|]. split; [|exact Hb]. intros y [<-|Hy]; auto.
+    + inversion H; subst. split; [reflexivity|]. split; [intros ? []|].
+      intros Hn. rewrite Hn, ag_bytes_eqb_refl in E. discriminate.
+Qed.
+
+Lemma dominant_spec R c0 run n :
+  R = c0 :: run -> (forall y, In y R -> c_name y = n) ->
+  (forall y, In y R -> (depth_of c0 <= depth_of y)%nat) ->
+  forall c, dominant R = Some c <-> sel R c.
+Proof.
+  intros HR Hn Hd c.
+  assert (E : dominant R = pick1 (filter (pq n (depth_of c0) false) R) (filter (pq n (depth_of c0) true) R)).
+  { rewrite <- ttop_eq, pick12. subst R. unfold dominant. cbv zeta.
+    assert (F : filter (fun c1 => Nat.eqb (length (c_route c1)) (length (c_route c0))) (c0 :: run)
+                = filter (pq n (depth_of c0) false) (c0 :: run)).
+    { apply filter_ext_in. intros y Hy. unfold pq. rewrite (Hn y Hy), ag_bytes_eqb_refl. cbn [implb andb].
+      rewrite andb_true_r. reflexivity. }
+    rewrite F. reflexivity. }
+  rewrite E, pick_spec; [|intros y Hy _; apply Hd; exact Hy].
+  split; [intros H; apply H|]. intros H. split; [exact H|]. split; [apply Hn; apply H|].
+  assert (H0 : In c0 R) by (subst R; left; reflexivity).
+  destruct H as (Hin & Hm & _). specialize (Hm c0 H0). rewrite (Hn c0 H0), (Hn c Hin) in Hm.
+  specialize (Hm eq_refl). specialize (Hd c Hin). lia.
+Qed.
+
+Lemma dominant_single c : dominant [c] = Some c.
+Proof. unfold dominant. cbn [filter]. rewrite Nat.eqb_refl. cbn [filter]. destruct (c_tagged c); reflexivity. Qed.
+
+Lemma bytes_ne_dec (a b : bytes) : a = b \/ a <> b.
+Proof. apply (sto_dec _ _ sto_bytes). Qed.
+
+Theorem dominate_spec : forall fuel l, (length l < fuel)%nat -> StronglySorted le_bn l ->
+  (forall c, In c (dominate fuel l) <-> sel l c) /\ StronglySorted name_lt (dominate fuel l).
+Proof.
+  induction fuel as [|f IH]; intros l Hlen Hs; [lia|].
+  destruct l as [|c0 r].
+  - cbn [dominate]. split; [|constructor]. intros c. split; [intros []|intros [[] _]].
+  - cbn [dominate]. destruct (take_run (c_name c0) r) as [run rest] eqn:Et.
+    destruct (take_run_spec _ _ _ _ Et) as (Hr & Hrun & Hrest).
+    set (n := c_name c0) in *. set (R := c0 :: run).
+    assert (Hl : c0 :: r = R ++ rest) by (unfold R; rewrite Hr; reflexivity).
+    rewrite Hl in Hs. destruct (StronglySorted_app_inv _ _ _ Hs) as (HsR & Hsrest & Hcross).
+    assert (HRn : forall y, In y R -> c_name y = n).
+    { intros y [<-|Hy]; [reflexivity|auto]. }
+    assert (HRd : forall y, In y R -> (depth_of c0 <= depth_of y)%nat).
+    { intros y [<-|Hy]; [lia|]. inversion HsR as [|? ? _ Hall]; subst. rewrite Forall_forall in Hall.
+      apply le_bn_depth; [apply Hall; exact Hy|]. symmetry. apply Hrun. exact Hy. }
+    assert (Hgt : forall y, In y rest -> bytes_ltb n (c_name y) = true).
+    { destruct rest as [|z rest']; [intros ? []|].
+      assert (Hz : bytes_ltb n (c_name z) = true).
+      { assert (Hle : bytes_ltb (c_name z) n = false).
+        { apply (le_bn_name c0 z). apply Hcross; left; reflexivity. }
+        destruct (ag_bytes_ltb_total n (c_name z)) as [H|H]; [congruence|exact H|congruence]. }
+      intros y [<-|Hy]; [exact Hz|].
+      inversion Hsrest as [|? ? _ Hall]; subst. rewrite Forall_forall in Hall.
+      pose proof (le_bn_name _ _ (Hall y Hy)) as Hzy.
+      destruct (bytes_ltb n (c_name y)) eqn:E; [reflexivity|].
+      rewrite (sto_le_trans _ _ sto_bytes _ _ _ Hzy E) in Hz. discriminate. }
+    assert (Hne : forall y, In y rest -> c_name y <> n).
+    { intros y Hy E. specialize (Hgt y Hy). rewrite E, ag_bytes_ltb_irrefl in Hgt. discriminate. }
+    assert (Hlen' : (length rest < f)%nat).
+    { cbn [length] in Hlen. rewrite Hr, app_length in Hlen. lia. }
+    destruct (IH rest Hlen' Hsrest) as [IHin IHs].
+    assert (Hdom : forall c, dominant R = Some c <-> sel R c) by (apply (dominant_spec R c0 run n); auto).
+    assert (Heq : match run with
+                  | [] => c0 :: dominate f rest
+                  | _ :: _ => match dominant R with
+                              | Some d => d :: dominate f rest
+                              | None => dominate f rest
+                              end
+                  end = (match dominant R with Some d => [d] | None => [] end) ++ dominate f rest).
+    { unfold R. destruct run as [|c1 run']; [rewrite dominant_single; reflexivity|].
+      destruct (dominant (c0 :: c1 :: run')); reflexivity. }
+    rewrite Heq, Hl. split.
+    + intros c. rewrite in_app_iff. split.
+      * intros [H|H].
+        -- destruct (dominant R) as [d|] eqn:Ed; [|contradiction]. destruct H as [->|[]].
+           clear Ed. assert (Ed : sel R c) by (apply Hdom; reflexivity). apply sel_app_l; [|exact Ed].
+           intros y Hy. rewrite (HRn c (proj1 Ed)). apply Hne. exact Hy.
+        -- apply IHin in H. apply sel_app_r; [|exact H].
+           intros y Hy. rewrite (HRn y Hy). intros E. apply (Hne c); [apply H|auto].
+      * intros H. destruct (bytes_ne_dec (c_name c) n) as [E|E].
+        -- left. apply sel_app_l in H; [|intros y Hy; rewrite E; apply Hne; exact Hy].
+           apply Hdom in H. rewrite H. left. reflexivity.
+        -- right. apply IHin. apply sel_app_r in H; [exact H|].
+           intros y Hy. rewrite (HRn y Hy). congruence.
+    + destruct (dominant R) as [d|] eqn:Ed; cbn [app]; [|exact IHs].
+      constructor; [exact IHs|]. rewrite Forall_forall. intros y Hy.
+      clear Ed. assert (Ed : sel R d) by (apply Hdom; reflexivity). unfold name_lt. rewrite (HRn d (proj1 Ed)). apply Hgt. apply IHin in Hy. apply Hy.
+Qed.
+
+(* ====================================================================== *)
+(* D. the fields of one struct; the unfolding by levels                      *)
+(* ====================================================================== *)
+
+Definition fields_of (SE : senv) (id : Z) : list sfield :=
+  match senv_get SE id with Some fs => fs | None => [] end.
+
+Fixpoint cands_from (fs : list sfield) (i : nat) (route : list nat) : list cand :=
+  match fs with
+  | [] => []
+  | sf :: r => match classify route i sf with
+               | FCand c => c :: cands_from r (S i) route
+               | _ => cands_from r (S i) route
+               end
+  end.
+Fixpoint embeds_from (fs : list sfield) (i : nat) (route : list nat) : list (list nat * Z) :=
+  match fs with
+  | [] => []
+  | sf :: r => match classify route i sf with
+               | FEmbed id' => (route ++ [i], id') :: embeds_from r (S i) route
+               | _ => embeds_from r (S i) route
+               end
+  end.
+
+(* a path: the route to an embedded struct and its id *)
+Definition path := (list nat * Z)%type.
+Definition cands (SE : senv) (p : path) : list cand := cands_from (fields_of SE (snd p)) O (fst p).
+Definition embeds (SE : senv) (p : path) : list path := embeds_from (fields_of SE (snd p)) O (fst p).
+
+Definition set_route (r : list nat) (c : cand) : cand := Cand (c_name c) r (c_type c) (c_tagged c) (c_omit c).
+
+Lemma classify_route r i sf :
+  classify r i sf = match classify [] i sf with
+                    | FSkip => FSkip
+                    | FCand c => FCand (set_route (r ++ [i]) c)
+                    | FEmbed id => FEmbed id
+                    end.
+Proof.
+  unfold classify.
+  destruct (negb (sf_exported sf) && negb (sf_anon sf)); [reflexivity|].
+  destruct (sf_anon sf && negb (sf_exported sf) && _); [reflexivity|].
+  destruct (bytes_eqb (sf_tag sf) [45]); [reflexivity|].
+  destruct (tag_split (sf_tag sf) []) as [nm0 opts].
+  destruct (_ || _); [reflexivity|].
+  destruct (struct_id (follow (sf_type sf))); reflexivity.
+Qed.
+
+Lemma classify_cand_route r i sf c : classify r i sf = FCand c -> c_route c = r ++ [i].
+Proof. rewrite classify_route. destruct (classify [] i sf); try discriminate. intros H; inversion H. reflexivity. Qed.
+
+Lemma cands_from_reroute fs r r' : forall i,
+  cands_from fs i r' = map (fun c => set_route (r' ++ [last (c_route c) O]) c) (cands_from fs i r).
+Proof.
+  induction fs as [|sf fs IH]; intros i; [reflexivity|]. cbn [cands_from].
+  rewrite (classify_route r), (classify_route r'). destruct (classify [] i sf); [apply IH| |apply IH].
+  cbn [map]. rewrite <- IH. f_equal. unfold set_route. cbn [c_route c_name c_type c_tagged c_omit].
+  rewrite last_last. reflexivity.
+Qed.
+
+Lemma cands_from_names fs r r' i : map c_name (cands_from fs i r') = map c_name (cands_from fs i r).
+Proof. rewrite (cands_from_reroute fs r r'), map_map. reflexivity. Qed.
+
+Lemma cands_from_depth fs r : forall i c, In c (cands_from fs i r) -> depth_of c = S (length r).
+Proof.
+  induction fs as [|sf fs IH]; intros i c; [intros []|]. cbn [cands_from].
+  destruct (classify r i sf) eqn:E; [apply IH| |apply IH].
+  intros [<-|H]; [|eapply IH; exact H]. unfold depth_of. rewrite (classify_cand_route _ _ _ _ E), app_length. cbn. lia.
+Qed.
+
+Lemma cands_depth SE p c : In c (cands SE p) -> depth_of c = S (length (fst p)).
+Proof. apply cands_from_depth. Qed.
+
+Lemma cnt_pq_reroute fs r r' n d tg : length r = length r' -> forall i,
+  cnt (pq n d tg) (cands_from fs i r') = cnt (pq n d tg) (cands_from fs i r).
+Proof.
+  intros Hl. induction fs as [|sf fs IH]; intros i; [reflexivity|]. cbn [cands_from].
+  rewrite (classify_route r), (classify_route r'). destruct (classify [] i sf); [apply IH| |apply IH].
+  rewrite !cnt_cons, IH. f_equal.
+  unfold pq, depth_of, set_route. cbn [c_name c_route c_tagged]. rewrite !app_length, Hl. reflexivity.
+Qed.
+
+Lemma embeds_from_ids fs r r' : forall i, map snd (embeds_from fs i r') = map snd (embeds_from fs i r).
+Proof.
+  induction fs as [|sf fs IH]; intros i; [reflexivity|]. cbn [embeds_from].
+  rewrite (classify_route r), (classify_route r'). destruct (classify [] i sf); [apply IH|apply IH|].
+  cbn [map snd]. rewrite IH. reflexivity.
+Qed.
+
+Lemma embeds_from_len fs r : forall i p, In p (embeds_from fs i r) -> length (fst p) = S (length r).
+Proof.
+  induction fs as [|sf fs IH]; intros i p; [intros []|]. cbn [embeds_from].
+  destruct (classify r i sf) eqn:E; [apply IH|apply IH|].
+  intros [<-|H]; [|eapply IH; exact H]. cbn [fst]. rewrite app_length. cbn. lia.
+Qed.
+
+Lemma embeds_len SE p p' : In p' (embeds SE p) -> length (fst p') = S (length (fst p)).
+Proof. apply embeds_from_len. Qed.
+
+Lemma cands_names SE r r' T : map c_name (cands SE (r', T)) = map c_name (cands SE (r, T)).
+Proof. apply cands_from_names. Qed.
+Lemma embeds_ids SE r r' T : map snd (embeds SE (r', T)) = map snd (embeds SE (r, T)).
+Proof. apply embeds_from_ids. Qed.
+Lemma cands_cnt SE r r' T n d tg : length r = length r' ->
+  cnt (pq n d tg) (cands SE (r', T)) = cnt (pq n d tg) (cands SE (r, T)).
+Proof. intros H. apply cnt_pq_reroute. exact H. Qed.
+
+(* --- unfold, one step --- *)
+Lemma unfold_S f SE id route :
+  Permutation (unfold (S f) SE id route)
+              (cands SE (route, id) ++ flat_map (fun p => unfold f SE (snd p) (fst p)) (embeds SE (route, id))).
+Proof.
+  unfold cands, embeds. cbn [unfold fst snd]. fold (fields_of SE id).
+  generalize (fields_of SE id) as fs. generalize O as i. intros i fs. revert i.
+  induction fs as [|sf fs IH]; intros i; [apply Permutation_refl|].
+  cbn [cands_from embeds_from]. destruct (classify route i sf) eqn:E.
+  - apply IH.
+  - cbn [app]. apply perm_skip. apply IH.
+  - cbn [flat_map fst snd].
+    eapply perm_trans; [apply Permutation_app_head; apply IH|].
+    rewrite !app_assoc. apply Permutation_app_tail. apply Permutation_app_comm.
+Qed.
+
+Fixpoint full (fuel : nat) (SE : senv) (P : list path) : list cand :=
+  match fuel with
+  | O => []
+  | S f => flat_map (cands SE) P ++ full f SE (flat_map (embeds SE) P)
+  end.
+
+Lemma flat_map_perm {X Y} (g : X -> list Y) l l' : Permutation l l' -> Permutation (flat_map g l) (flat_map g l').
+Proof.
+  induction 1 as [|x l l' _ IH|x y l|l l' l'' _ IH1 _ IH2]; cbn [flat_map].
+  - apply Permutation_refl.
+  - apply Permutation_app_head. exact IH.
+  - rewrite !app_assoc. apply Permutation_app_tail. apply Permutation_app_comm.
+  - eapply perm_trans; eassumption.
+Qed.
+
+Lemma full_perm f SE : forall P P', Permutation P P' -> Permutation (full f SE P) (full f SE P').
+Proof.
+  induction f as [|f IH]; intros P P' H; [apply Permutation_refl|]. cbn [full].
+  apply Permutation_app; [apply flat_map_perm; exact H|]. apply IH. apply flat_map_perm. exact H.
+Qed.
+
+Lemma full_app f SE : forall P1 P2, Permutation (full f SE (P1 ++ P2)) (full f SE P1 ++ full f SE P2).
+Proof.
+  induction f as [|f IH]; intros P1 P2; [apply Permutation_refl|]. cbn [full].
+  rewrite !flat_map_app.
+  eapply perm_trans; [apply Permutation_app_head; apply IH|].
+  rewrite <- !app_assoc. apply Permutation_app_head.
+  rewrite !app_assoc. apply Permutation_app_tail. apply Permutation_app_comm.
+Qed.
+
+Lemma full_nil f SE : full f SE [] = [].
+Proof. induction f as [|f IH]; [reflexivity|]. cbn [full flat_map app]. exact IH. Qed.
+
+Lemma full_flat f SE L : Permutation (flat_map (fun p => full f SE [p]) L) (full f SE L).
+Proof.
+  induction L as [|p L IH]; cbn [flat_map].
+  - rewrite full_nil. apply Permutation_refl.
+  - eapply perm_trans; [apply Permutation_app_head; exact IH|].
+    apply Permutation_sym. apply (full_app f SE [p] L).
+Qed.
+
+Theorem unfold_full SE : forall f id route, Permutation (unfold f SE id route) (full f SE [(route, id)]).
+Proof.
+  induction f as [|f IH]; intros id route; [apply Permutation_refl|].
+  eapply perm_trans; [apply unfold_S|]. cbn [full flat_map]. rewrite !app_nil_r.
+  apply Permutation_app_head.
+  eapply perm_trans; [|apply full_flat].
+  induction (embeds SE (route, id)) as [|p L IHL]; cbn [flat_map]; [apply Permutation_refl|].
+  apply Permutation_app; [destruct p; apply IH|exact IHL].
+Qed.
+
+(* ====================================================================== *)
+(* E. addressing: a route determines the field                               *)
+(* ====================================================================== *)
+
+Lemma cands_from_nth fs r : forall i c, In c (cands_from fs i r) ->
+  exists j sf, nth_error fs j = Some sf /\ classify r (i + j) sf = FCand c.
+Proof.
+  induction fs as [|sf fs IH]; intros i c; [intros []|]. cbn [cands_from].
+  assert (Hrec : In c (cands_from fs (S i) r) ->
+                 exists j sf0, nth_error (sf :: fs) j = Some sf0 /\ classify r (i + j) sf0 = FCand c).
+  { intros H. destruct (IH _ _ H) as (j & sf0 & Hn & Hc). exists (S j), sf0. split; [exact Hn|].
+    rewrite <- Hc. f_equal. lia. }
+  destruct (classify r i sf) eqn:E; [exact Hrec| |exact Hrec].
+  intros [<-|H]; [|auto]. exists O, sf. split; [reflexivity|]. rewrite Nat.add_0_r. exact E.
+Qed.
+
+Lemma embeds_from_nth fs r : forall i p, In p (embeds_from fs i r) ->
+  exists j sf, nth_error fs j = Some sf /\ classify r (i + j) sf = FEmbed (snd p) /\ fst p = r ++ [(i + j)%nat].
+Proof.
+  induction fs as [|sf fs IH]; intros i p; [intros []|]. cbn [embeds_from].
+  assert (Hrec : In p (embeds_from fs (S i) r) ->
+                 exists j sf0, nth_error (sf :: fs) j = Some sf0 /\ classify r (i + j) sf0 = FEmbed (snd p)
+                               /\ fst p = r ++ [(i + j)%nat]).
+  { intros H. destruct (IH _ _ H) as (j & sf0 & Hn & Hc & Hr). exists (S j), sf0. split; [exact Hn|].
+    replace (i + S j)%nat with (S i + j)%nat by lia. auto. }
+  destruct (classify r i sf) eqn:E; [exact Hrec|exact Hrec|].
+  intros [<-|H]; [|auto]. exists O, sf. rewrite Nat.add_0_r. cbn [fst snd]. auto.
+Qed.
+
+(* follow a route from struct [id] (reached along [pre]): every index but the last must select an
+   embedded struct (or pointer to struct) field that is explored; the result is the last field *)
+Fixpoint field_at (SE : senv) (id : Z) (pre rt : list nat) : option (list nat * nat * sfield) :=
+  match rt with
+  | [] => None
+  | i :: rest =>
+      match nth_error (fields_of SE id) i with
+      | None => None
+      | Some sf =>
+          match rest with
+          | [] => Some (pre, i, sf)
+          | _ :: _ => match classify pre i sf with
+                      | FEmbed id' => field_at SE id' (pre ++ [i]) rest
+                      | _ => None
+                      end
+          end
+      end
+  end.
+
+Lemma unfold_addr SE : forall f id route c, In c (unfold f SE id route) ->
+  exists rest pre i sf, c_route c = route ++ rest /\ field_at SE id route rest = Some (pre, i, sf)
+                        /\ classify pre i sf = FCand c.
+Proof.
+  induction f as [|f IH]; intros id route c; [intros []|].
+  intros H. apply (Permutation_in _ (unfold_S f SE id route)) in H. apply in_app_or in H.
+  destruct H as [H|H].
+  - apply cands_from_nth in H. destruct H as (j & sf & Hn & Hc). cbn [snd fst Nat.add] in *.
+    exists [j], route, j, sf. split; [apply (classify_cand_route _ _ _ _ Hc)|]. split; [|exact Hc].
+    cbn [field_at]. rewrite Hn. reflexivity.
+  - apply in_flat_map in H. destruct H as (p & Hp & H).
+    apply embeds_from_nth in Hp. destruct Hp as (j & sf & Hn & Hc & Hr). cbn [snd fst Nat.add] in *.
+    apply IH in H. destruct H as (rest & pre & i & sf' & Hroute & Hat & Hcl).
+    exists (j :: rest), pre, i, sf'. split; [|split; [|exact Hcl]].
+    + rewrite Hroute, Hr, <- app_assoc. reflexivity.
+    + cbn [field_at]. rewrite Hn. destruct rest as [|k rest']; [discriminate Hat|].
+      rewrite Hc, <- Hr. exact Hat.
+Qed.
+
+Theorem unfold_addresses SE f id c : In c (unfold f SE id []) ->
+  exists pre i sf, field_at SE id [] (c_route c) = Some (pre, i, sf) /\ classify pre i sf = FCand c
+                   /\ c_route c = pre ++ [i].
+Proof.
+  intros H. apply unfold_addr in H. destruct H as (rest & pre & i & sf & Hr & Hat & Hc).
+  cbn [app] in Hr. subst rest. exists pre, i, sf. split; [exact Hat|]. split; [exact Hc|].
+  apply (classify_cand_route _ _ _ _ Hc).
+Qed.
+Print Assumptions unfold_addresses.
+
+(* what [classify = FCand] says about the field *)
+Definition tag_name (sf : sfield) : bytes := fst (tag_split (sf_tag sf) []).
+Definition tag_opts (sf : sfield) : bytes := snd (tag_split (sf_tag sf) []).
+Definition unexported_embedded (sf : sfield) : bool := sf_anon sf && negb (sf_exported sf).
+Definition tag_usable (sf : sfield) : bool := is_valid_tag (tag_name sf) && negb (unexported_embedded sf).
+
+Theorem classify_cand_inv r i sf c : classify r i sf = FCand c ->
+  c_route c = r ++ [i] /\ c_type c = sf_type sf /\
+  (sf_exported sf = true \/ sf_anon sf = true) /\
+  bytes_eqb (sf_tag sf) [45] = false /\
+  (unexported_embedded sf = true -> exists id, struct_id (follow (sf_type sf)) = Some id) /\
+  c_omit c = opts_contains (tag_opts sf) omitempty_word /\
+  c_tagged c = tag_usable sf /\
+  c_name c = (if tag_usable sf then tag_name sf else downcase_first (sf_name sf)) /\
+  (sf_anon sf = true -> tag_usable sf = false -> struct_id (follow (sf_type sf)) = None).
+Proof.
+  unfold classify, tag_usable, tag_name, tag_opts, unexported_embedded.
+  destruct (sf_exported sf), (sf_anon sf); cbn [negb andb]; try discriminate.
+  - destruct (bytes_eqb (sf_tag sf) [45]); [discriminate|].
+    destruct (tag_split (sf_tag sf) []) as [nm0 opts]. cbn [fst snd]. rewrite andb_true_r.
+    destruct (is_valid_tag nm0) eqn:Ev.
+    + destruct nm0 as [|b nm0]; [discriminate Ev|]. cbn [orb]. intros H; inversion H; subst.
+      cbn [c_route c_type c_omit c_tagged c_name]. repeat split; auto; try discriminate.
+    + cbn [orb negb]. destruct (struct_id (follow (sf_type sf))) eqn:Es; [discriminate|].
+      intros H; inversion H; subst. cbn [c_route c_type c_omit c_tagged c_name]. repeat split; auto; discriminate.
+  - destruct (bytes_eqb (sf_tag sf) [45]); [discriminate|].
+    destruct (tag_split (sf_tag sf) []) as [nm0 opts]. cbn [fst snd]. rewrite andb_true_r.
+    destruct (is_valid_tag nm0) eqn:Ev.
+    + destruct nm0 as [|b nm0]; [discriminate Ev|]. cbn [orb]. intros H; inversion H; subst.
+      cbn [c_route c_type c_omit c_tagged c_name]. repeat split; auto; try discriminate.
+    + cbn [orb negb]. intros H; inversion H; subst.
+      cbn [c_route c_type c_omit c_tagged c_name]. repeat split; auto; discriminate.
+  - destruct (struct_id (follow (sf_type sf))) as [id'|] eqn:Es; [|discriminate]. cbn [andb].
+    destruct (bytes_eqb (sf_tag sf) [45]); [discriminate|].
+    destruct (tag_split (sf_tag sf) []) as [nm0 opts]. cbn [fst snd]. rewrite andb_false_r.
+    cbn [orb negb]. discriminate.
+Qed.
+Print Assumptions classify_cand_inv.
+
+(* and [classify = FEmbed]: an untagged embedded field whose type is a struct or a pointer to one *)
+Theorem classify_embed_inv r i sf id : classify r i sf = FEmbed id ->
+  sf_anon sf = true /\ struct_id (follow (sf_type sf)) = Some id /\ tag_usable sf = false /\
+  bytes_eqb (sf_tag sf) [45] = false.
+Proof.
+  unfold classify, tag_usable, tag_name, unexported_embedded.
+  destruct (sf_exported sf), (sf_anon sf); cbn [negb andb]; try discriminate.
+  - destruct (bytes_eqb (sf_tag sf) [45]); [discriminate|].
+    destruct (tag_split (sf_tag sf) []) as [nm0 opts]. cbn [fst snd]. rewrite andb_true_r.
+    destruct (is_valid_tag nm0) eqn:Ev.
+    + destruct nm0 as [|b nm0]; [discriminate Ev|]. cbn [orb]. discriminate.
+    + cbn [orb negb]. destruct (struct_id (follow (sf_type sf))) eqn:Es; [|discriminate].
+      intros H; inversion H; subst. auto.
+  - destruct (bytes_eqb (sf_tag sf) [45]); [discriminate|].
+    destruct (tag_split (sf_tag sf) []) as [nm0 opts]. cbn [fst snd]. rewrite andb_true_r.
+    destruct (is_valid_tag nm0) eqn:Ev.
+    + destruct nm0 as [|b nm0]; [discriminate Ev|]. cbn [orb]. discriminate.
+    + cbn [orb negb]. discriminate.
+  - destruct (struct_id (follow (sf_type sf))) as [id'|] eqn:Es; [|discriminate]. cbn [andb].
+    destruct (bytes_eqb (sf_tag sf) [45]); [discriminate|].
+    destruct (tag_split (sf_tag sf) []) as [nm0 opts]. cbn [fst snd]. rewrite andb_false_r.
+    cbn [orb negb]. intros H; inversion H; subst. auto.
+Qed.
+Print Assumptions classify_embed_inv.
